@@ -118,7 +118,28 @@ def _key(esc, it):
     return fi.qual, '%s: %s' % (it.type.split(':')[-1], norm_text(node)[:90])
 
 
-def _tainted_item(taint, esc, it):
+def _control_tainted(taint, fi, node):
+    """Is `node` of `fi` reached only under a test (or loop, or handler) on server data?"""
+    pm = U.parents(fi.node)
+    child = node
+    for a in U.ancestors(node, pm):
+        if isinstance(a, (ast.If, ast.While)) and taint.tainted(fi, a.test):
+            return True
+        if isinstance(a, (ast.For, ast.AsyncFor)) and taint.tainted(fi, a.iter):
+            return True
+        for fld in ('body', 'orelse'):
+            blk = getattr(a, fld, None)
+            if isinstance(blk, list) and any(child is x for x in blk):
+                i = [k for k, x in enumerate(blk) if x is child][0]
+                for prev in blk[:i]:
+                    if isinstance(prev, ast.If) and taint.tainted(fi, prev.test) and prev.body and isinstance(
+                            prev.body[-1], (ast.Return, ast.Continue, ast.Break, ast.Raise)):
+                        return True
+        child = a
+    return False
+
+
+def _tainted_item(taint, esc, it, ctx=None):
     """Does this exception source depend on bytes a server sent?"""
     fi, node = esc.sites.get(it, (None, None))
     if fi is None:
@@ -164,6 +185,17 @@ def _tainted_item(taint, esc, it):
         if taint.func_has_tainted_param(fi) and any(isinstance(x, (ast.If, ast.While)) and taint.tainted(fi, x.test)
                                                      and getattr(x, 'lineno', 0) < node.lineno for x in walk_no_nested(fi.node)):
             return True
+        # a helper that does nothing but raise ("cannot continue"): the decision was taken by its caller
+        if ctx is not None and not any(isinstance(x, (ast.If, ast.While, ast.For, ast.Try)) for x in walk_no_nested(fi.node)):
+            seen_, todo = {fi.qual}, [(fi, 0)]
+            while todo:
+                g, d = todo.pop()
+                for caller, call in _callers_of(ctx, g):
+                    if _control_tainted(taint, caller, call):
+                        return True
+                    if d < 2 and caller.qual not in seen_ and not any(isinstance(x, (ast.If, ast.While, ast.For, ast.Try)) for x in walk_no_nested(caller.node)):
+                        seen_.add(caller.qual)
+                        todo.append((caller, d + 1))
         return False
     return taint.tainted(fi, node)
 
@@ -1039,7 +1071,7 @@ def run(ctx):
             examined += 1
             if any(esc.is_sub(it.type, h) for h in handled):
                 continue
-            if not _tainted_item(taint, esc, it):
+            if not _tainted_item(taint, esc, it, ctx):
                 continue
             if it.kind == 'summary' and it.type == 'ValueError' and 'readline' in it.origin:
                 continue     # decided per site by C09-D3
